@@ -3886,8 +3886,21 @@ impl GlobalInferenceCtx<'_> {
                     // all of them.
                     .expect("is_safe_to_compile was done beforehand")
                 else {
-                    // the argument is a comptime block (or refers to one) that could not be
-                    // evaluated because it contains errors, which have been reported already
+                    // either the argument is a comptime block that could not be evaluated
+                    // because it contains errors, which have been reported already, or it is a
+                    // kind of constant whose data can't be passed as a comptime argument (yet)
+                    if !matches!(self.bodies[*arg], Expr::Comptime(_)) {
+                        self.diagnostics.push(TyDiagnostic {
+                            kind: TyDiagnosticKind::ComptimeArgNotConst {
+                                param_name: param.name.unwrap().0,
+                                param_ty,
+                            },
+                            file: self.loc.file(),
+                            range: self.bodies.range_for_expr(*arg),
+                            expr: Some(*arg),
+                            help: None,
+                        });
+                    }
                     return Ok(Err(ArgsContainDiagnostics));
                 };
                 let res = self.generics_arena.alloc(res);
@@ -5113,6 +5126,11 @@ impl GlobalInferenceCtx<'_> {
             Expr::FloatLiteral(num) => Ok(Some(ComptimeResult::Float {
                 num: *num,
                 bit_width: 32,
+            })),
+            // the same result a `comptime { true }` block gives
+            Expr::BoolLiteral(b) => Ok(Some(ComptimeResult::Integer {
+                num: *b as u64,
+                bit_width: 8,
             })),
             Expr::Comptime(comptime) => {
                 let hir::Comptime { body } = self.world_bodies[loc.file()][*comptime];
